@@ -65,6 +65,7 @@ struct HHashBig { typedef HashMap<int, Tracked> H; static H make() { H m; for (i
 struct HShared { typedef Shared<Tracked> H; static H make() { return H(new Tracked(9)); } static bool read(const H& h) { return h->ok() && h->v == 9; } static const char* name() { return "Shared<Tracked>"; } };
 struct HSharedA { typedef Shared<Tracked> H; static H make() { H h; h = new Tracked(9); return h; } static bool read(const H& h) { return h->ok() && h->v == 9; } static const char* name() { return "Shared<Tracked> filled by assigning a pointer"; } };
 struct HArrBig { typedef Array<Tracked> H; static H make() { H a; for (int i = 0; i < 3000; i++) a << Tracked(i % 100); return a; } static bool read(const H& h) { return h.length() == 3000 && h[0].ok() && h[2999].ok(); } static const char* name() { return "Array<Tracked> of 3000 elements"; } };
+struct HSharedNull { typedef Shared<Tracked> H; static H make() { return H((Tracked*)0); } static bool read(const H&) { return true; } static const char* name() { return "Shared<Tracked> built from a null pointer"; } };
 struct HSmartBase { typedef SmartObject H; static H make() { return SmartObject(); } static bool read(const H& h) { return h._p != 0; } static const char* name() { return "plain SmartObject (default-constructed)"; } };
 struct HSmart { typedef Thing H; static H make() { return Thing(); } static bool read(const H& h) { return h.ok(); } static const char* name() { return "SmartObject class"; } };
 
@@ -82,6 +83,8 @@ template<class K> struct DupOf { static void apply(typename K::H& h) { h.dup(); 
 template<> struct DupOf<HShared> { static void apply(Shared<Tracked>&) {} };
 template<> struct DupOf<HSharedA> { static void apply(Shared<Tracked>&) {} };
 template<> struct DupOf<HSmart> { static void apply(Thing&) {} };
+template<> struct DupOf<HSharedNull> { static void apply(Shared<Tracked>&) {} };
+template<> struct CloneOf<HSharedNull> { static Shared<Tracked> get(const Shared<Tracked>& h) { return Shared<Tracked>(h); } };
 template<> struct DupOf<HSmartBase> { static void apply(SmartObject&) {} };
 template<> struct CloneOf<HSmartBase> { static SmartObject get(const SmartObject& h) { return SmartObject(h); } };
 template<> struct EmptyOf<HSmartBase> { static SmartObject get() { return SmartObject((SmartObject_*)0); } };
@@ -187,7 +190,8 @@ static void serialCase(vf::Ctx& c)
 
 static void mode_serial(vf::Ctx& c)
 {
-	switch (c.idx % 11) {
+	switch (c.idx % 12) {
+	case 11: serialCase<HSharedNull>(c); break;
 	case 10: serialCase<HSmartBase>(c); break;
 	case 8: serialCase<HSharedA>(c); break;
 	case 9: serialCase<HArrBig>(c); break;
@@ -330,7 +334,8 @@ static void mode_dup_race(vf::Ctx& c)
 
 static void mode_stress(vf::Ctx& c)
 {
-	switch (c.idx % 11) {
+	switch (c.idx % 12) {
+	case 11: stressCase<HSharedNull>(c); break;
 	case 10: stressCase<HSmartBase>(c); break;
 	case 8: stressCase<HSharedA>(c); break;
 	case 9: stressCase<HArrBig>(c); break;
@@ -378,9 +383,9 @@ static void mode_counters(vf::Ctx& c)
 				case 6: { int k = r.range(1, 9); ai += k; dai[t] += k; break; }
 				case 7: { int k = r.range(1, 9); ai -= k; dai[t] -= k; break; }
 				case 8: { Long k = r.range(1, 1000); al += k; dal[t] += k; break; }
-				case 9: { ++al; dal[t]++; break; }
+				case 9: { if (r.chance(0.5)) { ++al; dal[t]++; } else { int k = r.range(1, 9); al -= k; dal[t] -= k; } break; }   // Atomic<Long> with an int operand
 				case 10: { int k = r.range(1, 64); ad += (double)k; dad[t] += k; break; }   // integers: exact in double
-				case 11: { int k = r.range(1, 64); ad -= (double)k; dad[t] -= k; break; }
+				case 11: { int k = r.range(1, 64); if (k & 1) ad -= (double)k; else ad -= k; dad[t] -= k; break; }   // half of them with an int operand on the Atomic<double>
 				}
 			}
 		});
